@@ -244,7 +244,7 @@ func Verif_C11_cancel_during_establishment() {
 	n := verifNetceptor("A")
 	s := n.s
 	verifapi.Quiesce()
-	verifapi.ExploreSchedules(1)
+	verifapi.ExploreSchedules(1 + verifapi.Tier())
 	run := verifStartProtocol(n, [][]byte{verifHandshake("B", 1)}, &BackendInfo{connectionCost: 1})
 	verifapi.GoLow(run.stop)
 	verifapi.Quiesce()
@@ -267,7 +267,7 @@ func Verif_C11_cancel_during_establishment() {
 // schedule (2 pre-emptions) exactly one is established and the loser is rejected without
 // removing the winner's entry.
 func Verif_C11_same_id_race() {
-	verifapi.ExploreSchedules(2)
+	verifapi.ExploreSchedules(2 + verifapi.Tier())
 	verifapi.SelectFork(false)
 	n := verifNetceptor("A")
 	s := n.s
